@@ -7,7 +7,8 @@ from . import common as C
 def _poly(n, spec, inputs):
     A = spec["A"]
     M = numpy.array([[inputs["b"][i]] + A[i] for i in range(len(A))], dtype=numpy.int64)
-    vs = [n.puan.variable(0, bounds=(1, 1))] + [n.puan.variable("v%d" % j, bounds=(inputs["lo"][j], inputs["hi"][j])) for j in range(len(A[0]))]
+    first = n.puan.variable("0") if spec.get("first") == "plain01" else n.puan.variable(0, bounds=(1, 1))
+    vs = [first] + [n.puan.variable("v%d" % j, bounds=(inputs["lo"][j], inputs["hi"][j])) for j in range(len(A[0]))]
     return n.pnd.ge_polyhedron(M, variables=vs)
 
 
